@@ -93,6 +93,9 @@ void nameNextChild(const std::string &name);
 int liveThreads(const char *prefix);
 // 0 = active (running or at a schedule point), 1 = parked in a condition wait, 2 = finished / not created
 int threadPhase(const std::string &name);
+// only in drivers that link vf/sched_io.cpp: write() calls of registered threads that failed with EBADF since the last reset
+long badFdWrites();
+void resetBadFdWrites();
 void externBegin();
 void externEnd();
 
